@@ -269,8 +269,16 @@ def build_api_tx(rng, network='bitcoin', kinds=None, nin=None, nout=None, max_n=
             meta.append(dict(kind=kind, wt='legacy' if kind == 'p2sh_ms' else 'segwit', sc=rs, val=val, keys=ks_sorted, m=m, spk=spk))
         elif kind == 'p2wpkh':
             k = rk()
-            t.add_input(txid, n, keys=[pub(k)], script_type='sig_pubkey', sequence=seq, value=val, witness_type='segwit',
-                        **with_spk(b'\x00\x14' + _h160(k.public_byte)))
+            form = rng.choice(['explicit', 'explicit', 'address-string', 'address-object'])
+            if form == 'explicit':
+                t.add_input(txid, n, keys=[pub(k)], script_type='sig_pubkey', sequence=seq, value=val, witness_type='segwit',
+                            **with_spk(b'\x00\x14' + _h160(k.public_byte)))
+            else:
+                # the witness type is not given: it follows from the (bech32) address of the output being spent
+                from bitcoinlib.keys import Address
+                ao = Address(hashed_data=_h160(k.public_byte), script_type='p2wpkh', encoding='bech32', network=network)
+                t.add_input(txid, n, keys=[pub(k)], script_type='sig_pubkey', sequence=seq, value=val,
+                            address=ao.address if form == 'address-string' else ao)
             sc = b'\x76\xa9\x14' + _h160(k.public_byte) + b'\x88\xac'
             meta.append(dict(kind=kind, wt='segwit', sc=sc, val=val, keys=[k], m=1, spk=b'\x00\x14' + _h160(k.public_byte)))
         elif kind == 'p2sh_p2wpkh':
